@@ -16,7 +16,7 @@ from .rules_lattice import flagset
 from .rules_tables import field_default
 from .terms import (Attr, BoundMethod, Call, ClassRef, Comp, Const, Default, DictT, EnumMember, Evaluator, Ext, FuncRef,
                     Ite, Loop, New, Op, Opaque, Outcome, SliceT, Store, Sub, Sym, Term, TupleT, _State, alternatives,
-                    default_inline, guards_repr, norm_guards, walk)
+                    default_inline, expand_outcomes, guards_repr, norm_guards, walk)
 from .util import all_terms, call_name, call_recv, method_calls, none_test
 
 
@@ -26,6 +26,9 @@ def parser_eval(ctx: Ctx) -> Evaluator:
             definitional = fi.kind == 'property' and fi.cls is not None and not any(b.name == 'HplAstObject' for b in fi.cls.mro())
             if fi.name in ('_convert_unary_operator', '_convert_binary_operator', '_convert_function_def'):
                 return False  # table lookups: summarised by G3 / T1 / T2, matched by name in F1
+            if fi.module.name == 'hpl.parser' and fi.cls is None and depth < 4 and sum(1 for x in ast.walk(fi.node) if isinstance(x, ast.stmt)) <= 8 \
+                    and not any(isinstance(x, (ast.For, ast.While, ast.With, ast.Yield, ast.YieldFrom)) for x in ast.walk(fi.node)):
+                return True   # small module-level helpers of the parser, try/except fallbacks included
             return depth < 6 and (fi.kind == 'classmethod' or fi.module.name == 'hpl.parser' or fi.name.startswith('_convert') or definitional) and default_inline(fi, depth)
         return Evaluator(ctx.model, inline=pol)
     return ctx.memo('parser_eval', build)
@@ -279,6 +282,7 @@ def F1(ctx: Ctx) -> RuleResult:
     single('number_constant', Expect('HplLiteral', token=C(0), value=Attr(Sub(ClassRef('NumberConstants'), C(0)), 'value')))
     single('string', Expect('HplLiteral', token=C(0), value=C(0)))
     fi, outs, _ = callback_outcomes(ctx, 'boolean')
+    outs = expand_outcomes(outs)
     n += 1
     vals = {}
     for o in outs:
@@ -671,6 +675,7 @@ def F2(ctx: Ctx) -> RuleResult:
 def D4(ctx: Ctx) -> RuleResult:
     r = RuleResult('D4', 'time_amount: ms divides by exactly 1000, s is the identity; pattern printer uses the reciprocal factor')
     fi, outs, _ = callback_outcomes(ctx, 'time_amount')
+    outs = expand_outcomes(outs)
     num = Call(Ext('float'), (C(0),))
     seen = {}
     for o in outs:
@@ -684,6 +689,8 @@ def D4(ctx: Ctx) -> RuleResult:
                     unit = other[0] if other else 'else'
         if not o.guards:
             unit = 'always'
+        if o.kind == 'raise' and o.guards and all(not p for _, p in norm_guards(o.guards)):
+            continue  # no known unit: an error is as good as the assertion (G7: the grammar produces no other unit)
         if o.kind != 'return':
             r.fail('time_amount:path', f'path does not return: {str(o)[:80]}', fi.where)
             continue
@@ -695,7 +702,7 @@ def D4(ctx: Ctx) -> RuleResult:
         r.ok(f'ms -> {ms!r}')
     else:
         r.fail('time_amount:ms', f'milliseconds are converted as {ms!r}, expected float(c0) / 1000.0', fi.where, 'float(c0) / 1000.0', repr(ms))
-    if s == num:
+    if s in (num, Op('/', (num, Const(1.0))), Op('/', (num, Const(1))), Op('*', (num, Const(1.0))), Op('*', (num, Const(1)))):
         r.ok(f's -> {s!r}')
     else:
         r.fail('time_amount:s', f'seconds are converted as {s!r}, expected float(c0)', fi.where, 'float(c0)', repr(s))
